@@ -130,7 +130,10 @@ func runVote(ctx *action.Context, tx action.RawTx) (bool, action.Response) {
 	if err != nil {
 		helpers.LogAndReturnFalse(ctx.Logger, gov.ErrGetProposalOptions, vote.Tags(), err)
 	}
-	stat, err := pms.ProposalVote.ResultSoFar(vote.ProposalID, options.PassPercentage)
+	// (decided by the pass percentage the proposal was created under, as the finalisation does: the option may
+	// have been changed by another proposal since)
+	_ = options
+	stat, err := pms.ProposalVote.ResultSoFar(vote.ProposalID, proposal.PassPercentage)
 	if err != nil {
 		return false, action.Response{
 			Log: gov.ErrPeekingVoteResult.Wrap(err).Marshal(),
